@@ -126,12 +126,104 @@ def thorough_N():
 
 
 def grid_cases(ctx):
+    rng = ctx.nprng("callrep")
     Ns = quick_N() if ctx.quick else thorough_N()
     for N in Ns:
         for alg in ("cube4D", "randomQ"):
             if N == 315 and alg == "cube4D":
                 continue        # 315 is the randomQ witness of F13 (cube4D_315 needs the 2080-node subdivision: 10 min)
-            yield {"kind": "grid", "alg": alg, "N": N}
+            yield {"kind": "grid", "alg": alg, "N": N, "rep": _draw_call_rep(rng)}
+
+
+# ---- input representations ------------------------------------------------------------------------------------------
+# The same mathematical input in every representation the public API accepts on the unchanged tree (established by a probe
+# on the unchanged tree, randomQ_9/10/17 and cube4D_12/15: every family below gives the matrices of the plain-Python /
+# float64 C-order call; float32 borders agree to 7e-15 only, because the sphere radius is then taken from a float32 norm).
+# Left out, with the reason: list of rows ('list' object has no attribute 'shape' in RotobjVoronoi.__init__), float16
+# (scipy: "Radius inconsistent with generators", also for the same numbers as float64), N as float (TypeError in np.zeros).
+REPS_GRID = ["f64_c", "f64_fortran", "f64_strided", "f64_readonly", "f32", "longdouble"]
+REPS_GRID_LAYOUT = ["f64_c", "f64_fortran", "f64_strided", "f64_readonly"]
+REPS_N = ["int", "np.int64", "np.int32", "np.uint16", "array0d"]
+REPS_ALG = ["str", "np.str_"]
+REPS_CALL = ["positional", "keyword", "keyword_swapped", "generic_positional", "generic_keyword"]
+REPS_FLAG = ["bool", "np.bool_", "int"]
+REPS_EXCLUDED = {"grid as list of rows": "AttributeError: 'list' object has no attribute 'shape' (RotobjVoronoi.__init__)",
+                 "grid as float16": "ValueError: Radius inconsistent with generators (scipy; same for these numbers as float64)",
+                 "N as float": "TypeError: 'float' object cannot be interpreted as an integer"}
+REP_BORDER_TOL = 1e-12      # float32 / longdouble grids: radius = norm in that dtype (observed 7e-15)
+
+
+def _represent(P64, fam):
+    """(array handed to the package, denoted float64 values)"""
+    P64 = np.ascontiguousarray(np.asarray(P64, dtype=np.float64))
+    if fam == "f64_c":
+        X = P64.copy()
+    elif fam == "f64_fortran":
+        X = np.asfortranarray(P64)
+    elif fam == "f64_strided":
+        big = np.full((2 * P64.shape[0] + 1, 2 * P64.shape[1] + 1), np.nan)
+        big[1::2, ::2][:, :P64.shape[1]] = P64
+        X = big[1::2, ::2][:, :P64.shape[1]]
+    elif fam == "f64_readonly":
+        X = P64.copy()
+        X.flags.writeable = False
+    elif fam == "f32":
+        X = P64.astype(np.float32)
+    elif fam == "longdouble":
+        X = P64.astype(np.longdouble)
+    else:
+        raise core.HarnessError(f"unknown representation {fam}")
+    return X, np.ascontiguousarray(np.array(X, dtype=np.float64))
+
+
+def _rep_scalar(v, fam):
+    return {"int": int, "np.int64": np.int64, "np.int32": np.int32, "np.uint16": np.uint16,
+            "array0d": lambda x: np.array(int(x))}[fam](v)
+
+
+def _rep_flag(b, fam):
+    return {"bool": bool, "np.bool_": np.bool_, "int": int}[fam](b)
+
+
+def _factory_create(alg, N, rep):
+    """SphereGrid4DFactory.create / SphereGridFactory.create with the arguments in the drawn representation"""
+    from molgri.space.rotobj import SphereGrid4DFactory, SphereGridFactory
+    rep = rep or {}
+    a = np.str_(alg) if rep.get("alg") == "np.str_" else str(alg)
+    n = _rep_scalar(N, rep.get("N", "int"))
+    call = rep.get("call", "positional")
+    if call == "positional":
+        return SphereGrid4DFactory.create(a, n)
+    if call == "keyword":
+        return SphereGrid4DFactory.create(alg_name=a, N=n)
+    if call == "keyword_swapped":
+        return SphereGrid4DFactory.create(N=n, alg_name=a)
+    if call == "generic_positional":
+        return SphereGridFactory.create(a, n, 4)
+    if call == "generic_keyword":
+        return SphereGridFactory.create(alg_name=a, N=n, dimensions=_rep_scalar(4, rep.get("N", "int")))
+    raise core.HarnessError(f"unknown call style {call}")
+
+
+def _draw_call_rep(rng):
+    pick = (lambda l: l[int(rng.integers(0, len(l)))]) if hasattr(rng, "integers") else (lambda l: l[rng.randrange(len(l))])
+    return {"N": pick(REPS_N), "alg": pick(REPS_ALG), "call": pick(REPS_CALL), "flags": pick(REPS_FLAG)}
+
+
+def rep_sweep_cases(ctx):
+    """quick and thorough: every family of every argument over small fixed cases"""
+    for alg, N in (("randomQ", 10), ("cube4D", 12)) + ((("randomQ", 17), ("cube4D", 15)) if not ctx.quick else ()):
+        for fam in REPS_GRID:
+            yield {"kind": "custom", "gen": "lib", "alg": alg, "N": N, "rep": fam}
+    for alg, N in (("randomQ", 9), ("cube4D", 8)):
+        for fam in REPS_N:
+            yield {"kind": "repcall", "alg": alg, "N": N, "rep": {"N": fam}}
+        for fam in REPS_ALG:
+            yield {"kind": "repcall", "alg": alg, "N": N, "rep": {"alg": fam}}
+        for fam in REPS_CALL:
+            yield {"kind": "repcall", "alg": alg, "N": N, "rep": {"call": fam, "N": "np.int32", "alg": "np.str_"}}
+        for fam in REPS_FLAG:
+            yield {"kind": "repcall", "alg": alg, "N": N, "rep": {"flags": fam}}
 
 
 def custom_cases(ctx):
@@ -144,11 +236,12 @@ def custom_cases(ctx):
         if ctx.quick and t >= 6:
             N = int(rng.integers(4, 9))
         Q = custom_points(rng, N, gen)
-        yield {"kind": "custom", "gen": gen, "G": Q.tolist()}
+        yield {"kind": "custom", "gen": gen, "G": Q.tolist(), "rep": REPS_GRID[int(rng.integers(0, len(REPS_GRID)))]}
     # permuted library grids: same geometry, another rotation at index 0 / N
     for alg, N in ((("randomQ", 8), ("cube4D", 8), ("randomQ", 11)) if ctx.quick else
                    (("randomQ", 8), ("cube4D", 8), ("randomQ", 11), ("cube4D", 17), ("randomQ", 30), ("cube4D", 40))):
-        yield {"kind": "custom", "gen": "perm", "alg": alg, "N": N, "perm_seed": int(rng.integers(0, 2 ** 31))}
+        yield {"kind": "custom", "gen": "perm", "alg": alg, "N": N, "perm_seed": int(rng.integers(0, 2 ** 31)),
+               "rep": REPS_GRID[int(rng.integers(0, len(REPS_GRID)))]}
 
 
 def synth_cases(ctx):
@@ -192,7 +285,8 @@ def synth_cases(ctx):
             if style == "wild" and trip and rng.random() < 0.5:
                 trip.append([trip[0][0], (trip[0][1] + 1) % n2, 0.0])      # an explicitly stored zero
             flags = [(True, True), (True, True), (False, True), (True, False), (False, False)][int(rng.integers(0, 5))]
-            yield {"kind": "synth", "P": P.tolist(), "layout": layout, "style": style, "n": n2, "t": trip,
+            yield {"kind": "synth", "rep": REPS_GRID[int(rng.integers(0, len(REPS_GRID)))],
+                   "P": P.tolist(), "layout": layout, "style": style, "n": n2, "t": trip,
                    "only_upper": flags[0], "include_opp": flags[1],
                    "sel": SELS[int(rng.integers(0, 3))]}
 
@@ -221,7 +315,8 @@ def poly_cases(ctx):
         if t % 2 == 0 and not _convex(pts):
             continue
         pts = pts[rng.permutation(k)]
-        yield {"kind": "poly", "src": f"generated delta={delta:.2e}", "pts": pts.tolist()}
+        yield {"kind": "poly", "src": f"generated delta={delta:.2e}", "pts": pts.tolist(),
+               "rep": REPS_GRID_LAYOUT[int(rng.integers(0, len(REPS_GRID_LAYOUT)))]}
 
 
 def _convex(pts):
@@ -307,6 +402,9 @@ def cases(ctx):
         _prefetch(ctx, list(grid_cases(ctx)) + list(custom_cases(ctx)))
     yield from grid_cases(ctx)
     yield from custom_cases(ctx)
+    ctx.extra_cov["representations"] = {"grid_array": REPS_GRID, "N": REPS_N, "algorithm_name": REPS_ALG, "call": REPS_CALL,
+                                        "flags": REPS_FLAG, "excluded_with_reason": REPS_EXCLUDED}
+    yield from rep_sweep_cases(ctx)
     yield from history_cases(ctx)
     yield from poly_cases(ctx)
     if _cpu:
@@ -331,9 +429,12 @@ def _points_of(case):
     from molgri.space.rotobj import SphereGrid4DFactory
     from molgri.space.voronoi import HalfRotobjVoronoi
     if case["kind"] == "grid":
-        g = SphereGrid4DFactory.create(case["alg"], case["N"])
+        g = _factory_create(case["alg"], case["N"], case.get("rep"))
         return g, np.array(g.get_grid_as_array(only_upper=False), dtype=float)
-    if case.get("gen") == "perm":
+    if case.get("gen") == "lib":
+        g = SphereGrid4DFactory.create(case["alg"], case["N"])
+        G = np.array(g.get_grid_as_array(only_upper=False), dtype=float)[:case["N"]]
+    elif case.get("gen") == "perm":
         g = SphereGrid4DFactory.create(case["alg"], case["N"])
         P0 = np.array(g.get_grid_as_array(only_upper=False), dtype=float)
         N = case["N"]
@@ -341,8 +442,13 @@ def _points_of(case):
         G = P0[:N][perm]
     else:
         G = np.array(case["G"], dtype=float)
-    P = np.vstack([G, -G])
-    return HalfRotobjVoronoi(P), P
+    X, P = _represent(np.vstack([G, -G]), case.get("rep", "f64_c"))
+    h = HalfRotobjVoronoi(X)
+    _passed[id(h)] = X
+    return h, P
+
+
+_passed = {}
 
 
 def _half_of(obj):
@@ -537,9 +643,10 @@ def observe(case, with_geo=True):
             pass
         if N <= 40:
             for sel in ("adjacency", "center_distances"):
+                frep = (case.get("rep") or {}).get("flags", "bool") if isinstance(case.get("rep"), dict) else "bool"
                 for ou, io in ((False, True), (True, False), (False, False)):
                     try:
-                        H = getattr(obj, GETTER[sel])(only_upper=ou, include_opposing_neighbours=io)
+                        H = getattr(obj, GETTER[sel])(only_upper=_rep_flag(ou, frep), include_opposing_neighbours=_rep_flag(io, frep))
                         out["flags"][(sel, ou, io)] = np.array(H.toarray())
                     except Exception as e:      # noqa: BLE001
                         out["flags"][(sel, ou, io)] = {"err": core.errname(e)}
@@ -560,10 +667,23 @@ def observe(case, with_geo=True):
         from molgri.space.utils import angle_between_vectors, distance_between_quaternions
         pairs = [(0, 1), (0, N + 1), (1, N), (N - 1, n2 - 2), (2, N + 3), (3, 2)]
         qd = []
+        X = _passed.pop(id(obj), None)
+        R = X if (X is not None and X.dtype == np.float64) else P       # rows in the layout the grid was passed in
         for a, b in pairs:
-            th = float(angle_between_vectors(P[a], P[b]))
-            qd.append((a, b, th, float(distance_between_quaternions(P[a], P[b]))))
+            th = float(angle_between_vectors(R[a], R[b]))
+            qd.append((a, b, th, float(distance_between_quaternions(R[a], R[b]))))
         out["qd"] = qd
+        # representation independence: the same numbers handed over as a plain C-ordered float64 array
+        if case["kind"] == "custom" and case.get("rep", "f64_c") != "f64_c":
+            from molgri.space.voronoi import HalfRotobjVoronoi
+            ref = {}
+            try:
+                hp = HalfRotobjVoronoi(np.ascontiguousarray(P).copy())
+                for sel in SELS:
+                    ref[sel] = np.array(getattr(hp, GETTER[sel])().toarray())
+            except Exception as e:      # noqa: BLE001
+                ref = {"err": core.errname(e)}
+            out["ref_plain"] = ref
     if with_geo:
         gk = P.tobytes()
         if N <= 60 and gk in _geo_cache:
@@ -656,17 +776,43 @@ def _prefetch(ctx, case_list):
 
 def impl_poly(case):
     from molgri.space.utils import exact_area_of_spherical_polygon, sort_points_on_sphere_ccw
-    pts = np.array(case["pts"], dtype=float)
+    X, pts = _represent(np.array(case["pts"], dtype=float), case.get("rep", "f64_c"))
     try:
         with core.quiet():
-            return {"area": float(exact_area_of_spherical_polygon(sort_points_on_sphere_ccw(pts))), "pts": pts}
+            return {"area": float(exact_area_of_spherical_polygon(sort_points_on_sphere_ccw(X))), "pts": pts}
     except Exception as e:      # noqa: BLE001
         return {"err": core.errname(e), "pts": pts}
+
+
+def impl_repcall(case):
+    """the factory called with arguments in another representation vs the plain-Python call: grid and matrices, bit for bit"""
+    from molgri.space.rotobj import SphereGrid4DFactory
+    rep = case["rep"]
+    fr = rep.get("flags", "bool")
+
+    def obs(g, fam):
+        o = [_digest(np.array(g.get_grid_as_array(only_upper=_rep_flag(False, fam))))]
+        for sel in SELS:
+            for ou, io in ((True, True), (False, True), (True, False)):
+                o.append(_digest(getattr(g, GETTER[sel])(only_upper=_rep_flag(ou, fam), include_opposing_neighbours=_rep_flag(io, fam))))
+        o.append(_digest(g.get_voronoi_volumes(approx=_rep_flag(True, fam))))
+        return o
+    with core.quiet():
+        try:
+            got = obs(_factory_create(case["alg"], case["N"], rep), fr)
+        except Exception as e:      # noqa: BLE001
+            got = {"err": core.errname(e), "msg": str(e)[:120]}
+        k = ("repcall_ref", case["alg"], case["N"])
+        if k not in _fresh_digest:
+            _fresh_digest[k] = obs(SphereGrid4DFactory.create(case["alg"], case["N"]), "bool")
+    return {"got": got, "ref": _fresh_digest[k]}
 
 
 def impl(case):
     if case["kind"] == "synth":
         return impl_synth(case)
+    if case["kind"] == "repcall":
+        return impl_repcall(case)
     if case["kind"] == "poly":
         return impl_poly(case)
     k = _case_key(case)
@@ -704,13 +850,13 @@ def _synth_matrix(case):
 
 def impl_synth(case):
     from molgri.space.voronoi import HalfRotobjVoronoi
-    P = np.array(case["P"], dtype=float)
-    key = P.tobytes()
+    X, P = _represent(np.array(case["P"], dtype=float), case.get("rep", "f64_c"))
+    key = (case.get("rep", "f64_c"), P.tobytes())
     with core.quiet():
         if key not in _synth_objs:
-            if len(_synth_objs) > 8:
+            if len(_synth_objs) > 12:
                 _synth_objs.clear()
-            _synth_objs[key] = HalfRotobjVoronoi(P)
+            _synth_objs[key] = HalfRotobjVoronoi(X)
         h = _synth_objs[key]
         M = _synth_matrix(case)
         saved = h.full_voronoi
@@ -745,6 +891,8 @@ def _sparse(M):
 
 
 def model_ops(case, out):
+    if case["kind"] == "repcall":
+        return []
     if case["kind"] == "poly":
         return [{"op": "area", "pts": [[core.fbits(x) for x in r] for r in out["pts"]]}]
     P = out["P"]
@@ -813,6 +961,8 @@ def compare_poly(ctx, case, out, mouts):
 
 
 def compare(ctx, case, out, mouts):
+    if case["kind"] == "repcall":
+        return
     if case["kind"] == "poly":
         return compare_poly(ctx, case, out, mouts)
     if case["kind"] == "synth":
@@ -1142,7 +1292,8 @@ def geometry(P, N, out):
         t2, a2 = _face(P, i, j + N, True)
         dot = abs(float(P[i] @ P[j]))
         # robust angle: 2 asin(|q -+ p| / 2)
-        d = 2 * math.asin(min(1.0, min(np.linalg.norm(P[i] - P[j]), np.linalg.norm(P[i] + P[j])) / 2))
+        u, w = P[i] / np.linalg.norm(P[i]), P[j] / np.linalg.norm(P[j])     # (float32 grids are unit only to 3e-8)
+        d = 2 * math.asin(min(1.0, min(np.linalg.norm(u - w), np.linalg.norm(u + w)) / 2))
         res[(i, j)] = (t1, a1, t2, a2, d, dot)
     selfc = []
     for i in range(N if N <= 60 else 0):
@@ -1157,9 +1308,9 @@ def geometry(P, N, out):
 def _tag(case):
     if case["kind"] == "grid":
         return f"{case['alg']}_{case['N']}" + ("(after history)" if case.get("history") else "")
-    if case.get("gen") == "perm":
-        return f"perm_{case['alg']}_{case['N']}"
-    return f"custom_{case.get('gen')}_{len(case['G'])}"
+    if case.get("gen") in ("perm", "lib"):
+        return f"{case['gen']}_{case['alg']}_{case['N']}" + (f"[{case['rep']}]" if case.get("rep") else "")
+    return f"custom_{case.get('gen')}_{len(case['G'])}" + (f"[{case['rep']}]" if case.get("rep") else "")
 
 
 KEY_TINY = "C04:F13_tiny_face_negative_area"
@@ -1253,11 +1404,68 @@ def oracle_history(ctx, case, out):
     return shrunk
 
 
+OBS_NAMES = (["grid"] + [f"{sel}(only_upper={ou}, include_opposing_neighbours={io})" for sel in SELS
+                          for ou, io in ((True, True), (False, True), (True, False))] + ["volumes(approx=True)"])
+
+
+def oracle_repcall(ctx, case, out):
+    """the result must not depend on how the same N / name / flags are represented"""
+    for k, v in case["rep"].items():
+        ctx.branch(f"rep_{k}_{v}")
+    ctx.nt(("repcall", case["alg"], case["N"], json.dumps(case["rep"], sort_keys=True)))
+    got, ref = out["got"], out["ref"]
+    if isinstance(got, dict):
+        ctx.fail("C04:representation_rejected", f"{case['alg']}_{case['N']} requested as {case['rep']}: {got['err']} ({got['msg']}); the "
+                 "plain-Python call gives a grid", case, "the grid and matrices of the plain call", got["err"])
+        return
+    for nm, a, b in zip(OBS_NAMES, got, ref):
+        if a != b:
+            ctx.fail("C04:representation_dependent", f"{case['alg']}_{case['N']} requested as {case['rep']}: {nm} differs from the "
+                     "plain-Python call (str name, int N, bool flags)", case, "bit-identical", nm)
+            return
+
+
+def oracle_rep_grid(ctx, case, out):
+    """same numbers, other array representation: same matrices"""
+    fam = case.get("rep", "f64_c")
+    ctx.branch("rep_grid_" + fam)
+    ref = out.get("ref_plain")
+    if ref is None:
+        return
+    if "err" in ref:
+        ctx.note(f"plain float64 reference of a {fam} grid raised {ref['err']}")
+        return
+    for sel in SELS:
+        H = out["half"][sel]
+        if isinstance(H, dict):
+            ctx.fail("C04:representation_dependent", f"{_tag(case)}: {GETTER[sel]} raises {H['err']} for the grid passed as {fam}; "
+                     "the same numbers as C-ordered float64 give a matrix", case, "a matrix", H["err"])
+            return
+        H, R = np.asarray(H, dtype=float), np.asarray(ref[sel], dtype=float)
+        exact = fam.startswith("f64") or sel != "border_len"
+        ok = H.shape == R.shape and np.array_equal(H != 0, R != 0) and \
+            (np.array_equal(H, R) if exact else float(np.abs(H - R).max(initial=0)) <= REP_BORDER_TOL)
+        if not ok:
+            where = "shape" if H.shape != R.shape else [int(x) for x in np.argwhere(H != R)[0]]
+            ctx.fail("C04:representation_dependent", f"{_tag(case)}: {GETTER[sel]} for the grid passed as {fam} differs from the "
+                     f"matrix for the same numbers passed as C-ordered float64 (first difference at {where}: "
+                     f"{H[tuple(where)] if where != 'shape' else H.shape!r} vs {R[tuple(where)] if where != 'shape' else R.shape!r})",
+                     case, "the same matrix", where)
+            return
+
+
 def oracle(ctx, case, out):
+    if case["kind"] == "repcall":
+        return oracle_repcall(ctx, case, out)
     if case["kind"] == "poly":
         return oracle_poly(ctx, case, out)
     if case["kind"] == "synth":
         return oracle_synth(ctx, case, out)
+    if case["kind"] == "custom":
+        oracle_rep_grid(ctx, case, out)
+    elif isinstance(case.get("rep"), dict):
+        for k, v in case["rep"].items():
+            ctx.branch(f"rep_{k}_{v}")
     if case.get("history"):
         shrunk = oracle_history(ctx, case, out)
         if shrunk is not None and shrunk["history"] != case["history"]:
@@ -1297,6 +1505,9 @@ def oracle(ctx, case, out):
     if "adjacency" not in mats:
         return
     have_b, have_d = "border_len" in mats, "center_distances" in mats
+    # a float32 grid is a set of unit quaternions only up to 3e-8: the diagram of the points as given and of their
+    # directions differ by that much, so values are determined to ~1e-7 only (patterns and symmetry stay exact)
+    area_tol, dist_tol = (1e-6, 1e-6) if case.get("rep") == "f32" else (AREA_TOL, DIST_TOL)
     A = mats["adjacency"]
     Bm = mats.get("border_len", np.zeros((N, N)))
     D = mats.get("center_distances", np.zeros((N, N)))
@@ -1345,7 +1556,7 @@ def oracle(ctx, case, out):
         else:
             if exp:
                 for (x, y) in ((i, j), (j, i)):
-                    if have_d and abs(D[x, y] - d) > DIST_TOL:
+                    if have_d and abs(D[x, y] - d) > dist_tol:
                         ctx.fail("C04:distance_wrong", f"{tag}: distance ({x},{y}) = {D[x, y]!r}, angle minimised over sign = {d!r}",
                                  case, d, float(D[x, y]))
                         break
@@ -1356,7 +1567,7 @@ def oracle(ctx, case, out):
                         ctx.branch("pairs_with_index_0_adjacent_only_through_antipode")
                     if ar is not None and have_b:
                         for (x, y) in ((i, j), (j, i)):
-                            if abs(Bm[x, y] - ar) > AREA_TOL:
+                            if abs(Bm[x, y] - ar) > area_tol:
                                 ctx.fail("C04:border_wrong",
                                          f"{tag}: border ({x},{y}) = {Bm[x, y]!r}; the single common face "
                                          f"({'direct' if f1 else 'through the antipode'}) has spherical area {ar!r}",
@@ -1366,7 +1577,7 @@ def oracle(ctx, case, out):
                     both += 1
                     if a1 is not None and a2 is not None and have_b:
                         for (x, y) in ((i, j), (j, i)):
-                            if min(abs(Bm[x, y] - a1), abs(Bm[x, y] - a2)) > AREA_TOL:
+                            if min(abs(Bm[x, y] - a1), abs(Bm[x, y] - a2)) > area_tol:
                                 ctx.fail("C04:border_wrong_two_faces",
                                          f"{tag}: border ({x},{y}) = {Bm[x, y]!r} is the area of neither common face ({a1!r}, {a2!r})",
                                          case, [a1, a2], float(Bm[x, y]))
